@@ -300,6 +300,12 @@ def gen_config(rng, adversarial=False, profile="default"):
         cfg["drain"] = "none"
         co = [x for x in co if not x.startswith("rejoin=") and not x.startswith("mps=") and not x.startswith("w.") and not x.startswith("up=")]
         co.append("rejoin=always")
+    if profile == "mpstight":
+        # publishes sized around the server's maximum packet size, with outbound aliasing in play
+        cfg["v"] = 5
+        cfg["resolver"] = rng.choice(["manual", "lru", "lru"])
+        cfg["rmax"] = rng.choice([2, 5])
+        co = [x for x in co if not x.startswith("mps=")]
     if profile == "backlog":
         # many unacknowledged operations across resumed sessions: retain everything, rejoin sessions
         cfg["policy"] = rng.choice(["all", "all", "acked"])
@@ -367,14 +373,20 @@ class Walk:
         k = r.choice(["pub", "pub", "pub", "pub", "sub", "unsub"])
         n = self.nuser
         to = ""
-        if r.chance(0.3):
+        if r.chance(0.3) or getattr(self, "force_timeout", False):
             to = f" timeout={r.choice([1, 50, 500, 5000])}"
         if self.profile == "qos2tiny":
             k = "pub"
         if k == "pub":
             qos = r.choice([0, 1, 1, 2, 2]) if self.profile != "qos2tiny" else r.choice([1, 2, 2, 2])
             payload = bytes([n >> 8, n & 0xFF]) + bytes(r.randint(0, 255) for _ in range(r.choice([0, 3, 10, 40, 200]) if self.profile != "qos2tiny" else r.choice([0, 1, 3])))
-            f = [f"pid=0 topic={hexs(b't/%d' % (n % 7))} qos={qos} retain={1 if r.chance(0.15) else 0} payload={hexs(payload)}"]
+            topic = b't/%d' % (n % 7)
+            if self.profile == "mpstight":
+                topic = r.choice([b"a", b"ab", b"t/%d" % (n % 3), b"topic/long/%d" % (n % 3), b"a/much/longer/topic/name/%d" % (n % 2)])
+                mps = self.caps_sent.get("mps", 60) if self.connected else 60
+                want = max(2, mps - r.randint(0, 12) - len(topic) - 6 + r.choice([0, 0, 0, len(topic)]))
+                payload = bytes([n >> 8, n & 0xFF]) + bytes(r.randint(0, 255) for _ in range(want - 2))
+            f = [f"pid=0 topic={hexs(topic)} qos={qos} retain={1 if r.chance(0.15) else 0} payload={hexs(payload)}"]
             if self.v5 and r.chance(0.3):
                 f.append(f"ta={r.choice([1, 2, 3])}")
             if self.v5 and r.chance(0.2):
@@ -470,6 +482,9 @@ class Walk:
                 caps["mps"] = r.choice([20, 60, 200, 100000])
             if r.chance(0.4):
                 caps["tam"] = r.choice([0, 1, 2, 10])
+            if self.profile == "mpstight":
+                caps["mps"] = r.randint(30, 90)
+                caps["tam"] = r.choice([1, 2, 10])
             if r.chance(0.15):
                 caps["wsa"] = 0
             if r.chance(0.15):
@@ -719,6 +734,10 @@ class StrictWalk(Walk):
         self.send(self.new_line, kind="new")
         budget = r.choice([3, 6, 12, 25])
         reconnects = r.choice([0, 0, 1, 2])
+        # a broker that silently drops some of its answers: every operation then carries an ack timeout, and a driver that
+        # sleeps until the reported service time must still see each of them resolve (by answer or by AckTimeout)
+        self.deaf = self.profile == "default" and r.chance(0.4)
+        self.force_timeout = self.deaf
         # some operations submitted while offline
         for _ in range(r.choice([0, 0, 1, 3])):
             self.user_op()
@@ -776,10 +795,17 @@ class StrictWalk(Walk):
                 self.deliver_connack_ok()
                 continue
             if b.connack_sent and b.pending:
+                if self.deaf and r.chance(0.4) and b.pending[0]["kind"] != "pingresp":
+                    b.pending.pop(0)          # the answer is never sent
+                    self.dropped = getattr(self, "dropped", 0) + 1
+                    continue
                 self.deliver_response()
                 continue
             # the driver would now sleep until `n` (or forever): is there work the engine could do?
             unresolved = self.unresolved_retained()
+            if self.deaf and unresolved and b.connack_sent and n is not None:
+                self.t = max(self.t, n)       # sleep until the reported time
+                continue
             if unresolved and b.connack_sent:
                 self.violations.append(("lost-wake-up", f"operations {unresolved} are unresolved, the broker owes nothing, all writes are flushed, "
                                                         f"yet the next service time is {'never' if n is None else str(n) + ' ms'} at {self.t} ms", len(self.script) - 1))
